@@ -15,6 +15,7 @@ OUTSIDE = 'tally up JSON/HTML observation points; non-ASCII text; more rules tha
 STUBS = ['norm-*: extract_merchant_name returns a constant (the fallback name is checked by unknown-*)', 'legacy-mod-*: tally.merchant_utils.re.search(<rule pattern>) returns a symbolic truth value; the CSV file is real (written to a temp dir before the analysis)']
 TRUSTED = ['ast.parse maps a literal to an ast.Constant holding it (AST-constant injection)']
 ASSUMPTIONS = ['symbolic text is 7-bit ASCII']
+WALL_BUDGET = {'quick': 600, 'thorough': 2400}      # thorough: ~270 obligations, most of them short
 
 
 # ----------------------------------------------------------------------------- 1. selection core
@@ -472,7 +473,7 @@ def obligations(tier, seed):
             obs.append(Obligation(id=f'norm-{t}-{focus}', factory='real_conditions', params={'tname': t, 'dlen': fdl, 'slen': fsl, 'via': 'normalize', 'focus': focus},
                                   timeout=170 if q else 900, group='normalize_merchant, engine path',
                                   bounds=f'template {t} through normalize_merchant with the cached engine: ' + (FOCUS[focus] % ((fdl, fsl) if focus.startswith('text') else (fsl,) if focus == 'context' else ()))))
-    for t in list(_t.generated(8 if q else 60, seed)):
+    for t in list(_t.generated(8 if q else 30, seed)):
         # thorough: many more generated files (breadth); the hand-written templates above also get the everything-at-once obligation (depth)
         for focus in FOCUS:
             obs.append(Obligation(id=f'real-{t}-{focus}', factory='real_conditions', params={'tname': t, 'dlen': 2, 'slen': 1 if focus.startswith('text') else 2, 'gseed': seed, 'refcheck': True, 'focus': focus},
